@@ -42,9 +42,10 @@ def main():
     meta["baseline_tests_pass_with_change"] = (rc == 0)
     meta["baseline_output"] = o.strip().split("\n")[0]
     rc1, o1 = sh("/venv/bin/python demo.py", cwd=wt, env=env, timeout=900)
-    sh("git stash", cwd=wt)
+    # (no `git stash`: the stash is shared between all worktrees of a repository)
+    sh("git apply -R %s" % os.path.join(out, "patch.diff"), cwd=wt)
     rc0, o0 = sh("/venv/bin/python demo.py", cwd=wt, env=env, timeout=900)
-    sh("git stash pop", cwd=wt)
+    sh("git apply %s" % os.path.join(out, "patch.diff"), cwd=wt)
     meta["demo_exit_with_change"] = rc1
     meta["demo_exit_without_change"] = rc0
     meta["demo_output_with_change"] = o1[-600:]
